@@ -23,6 +23,7 @@ type subCfg struct {
 	PullID       string // != "" : Collection.PullID
 	UsePullID    bool
 	Include      *inclTable
+	Include2     *inclTable // a second WithInclude option after the first (what the two mean together is the library's business)
 }
 
 func (c subCfg) String() string {
@@ -44,6 +45,9 @@ func (c subCfg) String() string {
 	if c.Include != nil {
 		p = append(p, "include="+c.Include.String())
 	}
+	if c.Include2 != nil {
+		p = append(p, "include="+c.Include2.String())
+	}
 	return strings.Join(p, ",")
 }
 
@@ -54,6 +58,9 @@ func (c subCfg) readOpts() []resource.ReadOption {
 	}
 	if c.Include != nil {
 		opts = append(opts, resource.WithInclude(c.Include.fn()))
+	}
+	if c.Include2 != nil {
+		opts = append(opts, resource.WithInclude(c.Include2.fn())) // the option given a second time
 	}
 	return opts
 }
